@@ -3,6 +3,7 @@ package main
 
 import (
 	. "verifharness/common"
+	"verifharness/flashops"
 	"verifharness/uefigen"
 	"verifharness/uefiops"
 )
@@ -19,8 +20,19 @@ func gen(r *Rng, tier string, emit Emit) {
 			big = append(big, [4]uint64{10 + k, uint64(r.Pick(0, 0x08, 0x10, 0x18, 0x20, 0x28, 0x40)), uint64(r.Intn(5000)), uint64(r.Intn(2))})
 		}
 	}
+	// the Intel flash image entry shape: descriptor + regions, BIOS region from the grammar
+	flashops.Gen(r.Fork(0xF1A5), tier, emit)
 	for _, b := range big {
 		emit("P", "p_big_identity", N(r.U64()^b[0]), N(b[1]), N(b[2]), N(b[3]))
+	}
+	// the same with a big file that is rebuilt from its sections (two 8 MiB sections / one 16 MiB
+	// section with an extended section header)
+	emit("P", "p_big_identity", N(r.U64()^0x51), N(0x00), N(0), N(1), N(1))
+	emit("P", "p_big_identity", N(r.U64()^0x52), N(0x08), N(33), N(0), N(2))
+	if tier == "thorough" {
+		for k := uint64(0); k < 6; k++ {
+			emit("P", "p_big_identity", N(r.U64()^(0x60+k)), N(uint64(r.Pick(0, 0x08, 0x10, 0x18, 0x40))), N(uint64(r.Intn(5000))), N(uint64(r.Intn(2))), N(1+k%2))
+		}
 	}
 	for it := 0; it < n; it++ {
 		rr := r.Fork(uint64(it))
@@ -50,6 +62,7 @@ func gen(r *Rng, tier string, emit Emit) {
 
 func main() {
 	uefiops.RegisterAll()
+	flashops.RegisterAll()
 	// the generator claims membership; the model decides
 	Register("grammar", func(args []string) string { return "member" })
 	Main(gen)
